@@ -297,7 +297,7 @@ pub fn raw_lanes(bounds: Vec<u64>, widths: Vec<usize>, limb_bytes: usize) -> Box
     }).boxed()
 }
 
-fn avx2_lanes(b: f64) -> BoxedStrategy<Vec<u8>> {
+pub fn avx2_lanes(b: f64) -> BoxedStrategy<Vec<u8>> {
     let (be, bo) = avx2_bound(b);
     let bounds: Vec<u64> = (0..10).map(|j| if j % 2 == 0 { be.min(1 << 32) } else { bo.min(1 << 32) }).collect();
     let widths: Vec<usize> = (0..10).map(|j| if j % 2 == 0 { 26 } else { 25 }).collect();
